@@ -81,3 +81,17 @@ W void w_md_str_pre(const unsigned char* in, unsigned n, const char* pre, unsign
   o->pre_refs = p ? unsigned(p->references) : 0; o->pre_len = p ? unsigned(p->length) : 0;
 }
 W void w_md_set_key(MD* d, const unsigned char* k, unsigned n) { StringBuffer& sb = d->*get(T_sbuf()); char* p = sb.reserve(n); if (p) for (unsigned i = 0; i < n; i++) p[i] = char(k[i]); }
+// ---- parseVariant<Filter>: scalars under a filter that may not admit values
+using DeserializationOption::Filter;
+ROB(T_pvf, MD, Code (MD::*)(VariantData*, Filter, NL), template parseVariant<Filter>)
+static Arena farena;
+W void w_md_parse_variant_f(const unsigned char* in, unsigned n, unsigned shape, MOut* o) {
+  arena.reset(0); ResourceManager rm(&arena); MD d(&rm, VReader{in, in + n});
+  farena.reset(0); ResourceManager frm(&farena); VariantData fv;
+  switch (shape) { case 0: fv.setBoolean(true); break; case 1: fv.setBoolean(false); break; case 2: fv.toObject(); break; case 3: fv.toArray(); break; default: break; }
+  Filter filter{JsonVariantConst(&fv, &frm)};
+  VariantData v;
+  Code c = (d.*get(T_pvf()))(filter.allow() ? &v : nullptr, filter, NL(5));
+  o->code = unsigned(c); o->consumed = w_md_pos(&d, in); o->found = d.*get(T_found()); o->overflowed = rm.overflowed(); o->max_request = unsigned(arena.max_request);
+  observe(v, rm, o);
+}
